@@ -141,9 +141,11 @@ def unfl(j):
 
 
 def mod_null_eq(a, b):
-    """b is a with, at most, explicit nulls added for absent object keys; nothing else may differ"""
+    """b is a up to the null rule: explicit nulls may be ADDED for absent object keys, and a key whose input value is an
+    explicit null may be absent (Python's None cannot tell `"data": null` at an optional LSPAny property from an unset one —
+    pinned reading, DESIGN.md C01); nothing else may differ.  Which keys must be written is decided by C10."""
     if isinstance(a, dict) and isinstance(b, dict):
-        return all(k in b and mod_null_eq(a[k], b[k]) for k in a) and all(b[k] is None for k in b if k not in a)
+        return all((k in b and mod_null_eq(a[k], b[k])) or (k not in b and a[k] is None) for k in a) and all(b[k] is None for k in b if k not in a)
     if isinstance(a, (list, tuple)) and isinstance(b, (list, tuple)):
         return len(a) == len(b) and all(mod_null_eq(x, y) for x, y in zip(a, b))
     if isinstance(a, bool) or isinstance(b, bool):
@@ -188,3 +190,165 @@ def run_stream(chk, cases, tag):
         if f["case"].get("kind") == "alias-target" and not f["keys"]:
             f["keys"] = ["alias-target=%s" % f["case"]["target"]]
     return verdict, real, failing
+
+
+def rand_cases(mmv, pkg, rng, n_struct=1, n_msg=1):
+    """seeded random valid values: every structure, every request / response / notification"""
+    cases = []
+    for sn in mmv.S:
+        if sn == "LSPObject" or sn not in pkg["classes"]:
+            continue
+        for _ in range(n_struct):
+            cases.append({"target": sn, "input": mmv.rand(mmlib.ref(sn), rng, 0, rng.choice([1, 2, 3])), "kind": "valid-rand",
+                          "mmty": "(TRef %s)" % V.q(sn), "site": "random:%s" % sn})
+    for kind, r in mmv.messages():
+        names = pkg["methods"].get(r["method"])
+        if not names:
+            continue
+        m = r["method"]
+        for _ in range(n_msg):
+            if kind == "request":
+                j = {"jsonrpc": "2.0", "id": rng.choice([1, "x", 2**31 - 1, -2**31]), "method": m}
+                if "params" in r:
+                    j["params"] = mmv.rand(r["params"], rng, 1, 3)
+                cases.append({"target": names[0], "input": j, "kind": "valid-msg", "mmty": "(req_ty %s)" % V.q(m), "site": "random:%s" % names[0]})
+                if names[1]:
+                    cases.append({"target": names[1], "input": {"jsonrpc": "2.0", "id": rng.choice([1, "id"]), "result": mmv.rand(r["result"], rng, 1, 3)},
+                                  "kind": "valid-msg", "mmty": "(resp_ty %s)" % V.q(m), "site": "random:%s" % names[1]})
+            else:
+                j = {"jsonrpc": "2.0", "method": m}
+                if "params" in r:
+                    j["params"] = mmv.rand(r["params"], rng, 1, 3)
+                cases.append({"target": names[0], "input": j, "kind": "valid-msg", "mmty": "(notif_ty %s)" % V.q(m), "site": "random:%s" % names[0]})
+    return cases
+
+
+def sys_cases(mmv, pkg):
+    cases = []
+    for sn in mmv.S:
+        if sn == "LSPObject" or sn not in pkg["classes"]:
+            continue
+        for alt, depth in ((0, 0), (1, 3), (2, 2)):
+            cases.append({"target": sn, "input": mmv.value(mmlib.ref(sn), 0, alt, depth), "kind": "valid-sys", "mmty": "(TRef %s)" % V.q(sn),
+                          "site": "systematic:%s:alt%d" % (sn, alt)})
+    return cases
+
+
+def check_property(chk, prop, streams, extra_gen=()):
+    """Common body of the C01 / C03 / C14 checks.  streams: subset of {'site','alias','sys','rand'}."""
+    import random
+    rng = random.Random(chk.seed)
+    chk.trusted = V.STD_TRUSTED + ["translators x_mm, x_pkg, x_known (known_findings.txt -> Gen/Known.v)",
+                                   "hand-written converter model LSP.Sem (cattrs dispatch, make_dict_(un)structure_fn, attrs __init__/validators, Enum call, hook DSL), validated by the correspondence stream — not verified",
+                                   "the oracle applied to the real converter's results: valid inputs come from an independent metamodel-driven generator and are certified by MM.valid_b inside Coq"]
+    mmv = mmlib.MMView()
+    opens, _fixed = V.known_findings(prop)
+    known_keys = {o["key"].replace("~", ""): o for o in opens}
+    with V.build_lock():
+        ok, fails = CS.build_conv(chk)
+        kn = os.path.join(V.GEN, "Known.v")
+        p = V.run_py("x_known.py", [kn])
+        chk.obligation("translate:x_known", p.returncode == 0, (p.stdout + p.stderr)[-200:])
+        if ok and p.returncode == 0:
+            proved, f2 = V.prove(chk, prop, [kn] + [os.path.join(V.GEN, g) for g in extra_gen])
+            fails += f2
+        elif p.returncode != 0:
+            fails.append(("translator", "x_known", (p.stdout + p.stderr)[-800:]))
+        if not ok:
+            # the package cannot even be translated: look for a failing input directly on the real code
+            chk.violation({"property": prop, "kind": "obligation no longer checks", "broken": [{"what": a, "name": b, "detail": c} for a, b, c in fails]}, no_input=True)
+            return
+        pkg = json.load(open(os.path.join(V.GEN, "pkg.json")))
+        cases = []
+        if "site" in streams:
+            cases += site_stream(mmv, pkg)
+        if "alias" in streams:
+            cases += alias_cases(mmv, pkg)
+        if "sys" in streams:
+            cases += sys_cases(mmv, pkg)
+        if "rand" in streams:
+            n = 1 if chk.tier == "quick" else 12
+            cases += rand_cases(mmv, pkg, rng, n, n)
+        verdict, real, failing = run_stream(chk, cases, prop)
+    dist = {}
+    for c in cases:
+        dist[c["kind"]] = dist.get(c["kind"], 0) + 1
+        chk.count((c["target"], json.dumps(c["input"], sort_keys=True)))
+    chk.extra["input_distribution"] = dist
+    chk.extra["traces_validated_against_impl"] = len(cases)
+    nbad = sum(1 for v in verdict if v)
+    chk.obligation("correspondence:Sem-vs-real-converter", nbad == 0, "%d cases, %d disagreements (codes: %s)" % (len(cases), nbad, sorted({v for v in verdict if v})))
+    if nbad:
+        i = [k for k, v in enumerate(verdict) if v][0]
+        fails.append(("correspondence", "LSP.Sem vs converter", json.dumps({"case": cases[i], "code": verdict[i], "impl_ok": real[i]["ok"]})[:1500]))
+    if cases:
+        chk.sample({"target": cases[0]["target"], "site": cases[0].get("site"), "input": cases[0]["input"]})
+        chk.sample({"target": cases[-1]["target"], "site": cases[-1].get("site"), "input": cases[-1]["input"]})
+    # attribute failures of THIS property
+    unknown, hit = [], {}
+    for f in failing:
+        mine = [d for p_, d in f["props"] if p_ == prop]
+        if not mine:
+            continue
+        keys = [k.replace("~", "") for k in f.get("keys", [])]
+        if f["case"].get("kind") == "alias-target":
+            keys.append("alias-target=%s" % f["case"]["target"])
+        k = next((k for k in keys if k in known_keys), None)
+        if k:
+            hit.setdefault(k, f)
+        else:
+            unknown.append((f, mine, keys))
+    # known findings: re-confirm each witness on the real code, print it once
+    for k, o in known_keys.items():
+        if k in hit:
+            chk.known("%s [%s]" % (o["text"][:160], o["key"]))
+        else:
+            w = confirm_witness(prop, o)
+            if w:
+                chk.known("%s [%s]" % (o["text"][:160], o["key"]))
+            else:
+                chk.extra.setdefault("stale_known_findings", []).append(o["key"])
+    chk.extra["failing_inputs_attributed_to_known_findings"] = len(hit)
+    if unknown:
+        f, mine, keys = unknown[0]
+        chk.violation({"property": prop, "kind": "real converter violates the property on a metamodel-valid input",
+                       "input": {"target": f["case"]["target"], "json": f["case"]["input"], "site": f["case"].get("site")}, "what": mine,
+                       "dispatch_trace_keys": keys, "others": [{"site": u[0]["case"].get("site"), "what": u[1][0][:120]} for u in unknown[1:15]],
+                       "broken": [x[:2] for x in fails]})
+    elif fails:
+        chk.violation({"property": prop, "kind": "obligation no longer checks", "broken": [{"what": a, "name": b, "detail": c} for a, b, c in fails],
+                       "searched": "%d metamodel-valid inputs (distribution %s) on the real converter: no unlisted failure" % (len(cases), dist)}, no_input=True)
+
+
+def confirm_witness(prop, o):
+    """does the recorded witness of an open finding still fail on the real code?"""
+    try:
+        w = json.load(open(os.path.join(V.VERIF, o["witness"])))
+    except Exception:
+        return False
+    key = o["key"]
+    ent = None
+    if key.startswith("alias-target=") and isinstance(w, dict):
+        ent = w.get(key[len("alias-target="):])
+    elif isinstance(w, dict) and "target" in w:
+        ent = w
+    elif isinstance(w, dict):
+        ent = w.get(key)
+    if not ent:
+        return False
+    c = {"target": ent["target"], "input": ent["input"], "kind": "witness"}
+    r = CS.real_run([c])["results"][0]
+    return any(p_ == prop for p_, _ in judge(dict(c, kind="site"), r))
+
+
+def replay_property(prop, path):
+    r = json.load(open(path))
+    inp = r.get("input")
+    if not inp:
+        print("no concrete input recorded")
+        return 1
+    c = {"target": inp["target"], "input": inp["json"], "kind": "site"}
+    res = CS.real_run([c])["results"][0]
+    v = [d for p_, d in judge(c, res) if p_ == prop]
+    print("still violates:" if v else "no longer violates", v[:2])
+    return 1 if v else 0
